@@ -10,6 +10,8 @@ pub mod c19;
 pub mod c17;
 #[cfg(kani)]
 pub mod c12;
+#[cfg(kani)]
+pub mod c10txt;
 
 // Filled in by bin/check with Kani's concrete-playback test when a counterexample is replayed
 // natively; empty between runs.
